@@ -238,7 +238,11 @@ def shard(shard_i, nshards, payload):
                    {"k": "raw", "text": "FUNCTION_BLOCK CycB\nVAR a : CycA; END_VAR\nEND_FUNCTION_BLOCK"}]
             dup = [{"k": "raw", "text": "PROGRAM DupName\nVAR x : INT; END_VAR\nx := 1;\nEND_PROGRAM"},
                    {"k": "raw", "text": "PROGRAM DupName\nVAR y : INT; END_VAR\ny := 2;\nEND_PROGRAM"}]
-            for extra, code, tag in ((cyc, "P0010", "fault:cycle"), (dup, "P0020", "fault:duplicate")):
+            same = {"k": "raw", "text": "FUNCTION_BLOCK SameTwice\nVAR x : INT; END_VAR\nx := 1;\nEND_FUNCTION_BLOCK"}
+            samet = {"k": "raw", "text": "TYPE\n  SameType : (sa, sb);\nEND_TYPE"}
+            for extra, code, tag in ((cyc, "P0010", "fault:cycle"), (dup, "P0020", "fault:duplicate"),
+                                     ([same, dict(same)], "P0020", "fault:identical-twice"),
+                                     ([samet, dict(samet)], "P0019", "fault:identical-type-twice")):
                 m = list(decls[:3])
                 m.insert(rng.randrange(len(m) + 1), extra[0])
                 m.insert(rng.randrange(len(m) + 1), extra[1])
